@@ -545,3 +545,170 @@ where
         finish_callback(act)
     }
 }
+
+// ---------------------------------------------------------------------------------------------
+// build-only probe, generic over the element type (builder decision table for element types
+// other than f64: what does a user strategy's `build` receive?)
+// ---------------------------------------------------------------------------------------------
+
+pub struct AxisProbe<const MIN: usize>;
+pub struct AxisProbeBuilt;
+
+fn axis_probe_check<T: PartialOrd + Copy>(name: &str, axis: &[T], data_len: Option<usize>, min: usize) {
+    let mut v = vec![];
+    if axis.windows(2).any(|w| !(w[0] < w[1])) {
+        v.push(format!("build: {name} axis not strictly increasing"));
+    }
+    if data_len != Some(axis.len()) {
+        v.push(format!("build: {name} axis length {} != data axis length {:?}", axis.len(), data_len));
+    }
+    if axis.len() < min {
+        v.push(format!("build: {name} axis has {} points < declared minimum {min}", axis.len()));
+    }
+    BUILDLOG.with(|b| {
+        let mut b = b.borrow_mut();
+        b.violations.extend(v);
+    });
+}
+
+impl<Sd, Sx, D, const MIN: usize> Interp1DStrategyBuilder<Sd, Sx, D> for AxisProbe<MIN>
+where
+    Sd: Data,
+    Sd::Elem: num_traits::Num + PartialOrd + num_traits::NumCast + Copy + std::fmt::Debug + std::ops::Sub<Output = Sd::Elem> + Send,
+    Sx: Data<Elem = Sd::Elem>,
+    D: Dimension + RemoveAxis,
+{
+    const MINIMUM_DATA_LENGHT: usize = MIN;
+    type FinishedStrat = AxisProbeBuilt;
+    fn build<Sx2>(self, x: &ArrayBase<Sx2, Ix1>, data: &ArrayBase<Sd, D>) -> Result<AxisProbeBuilt, BuilderError>
+    where
+        Sx2: Data<Elem = Sd::Elem>,
+    {
+        BUILDLOG.with(|b| b.borrow_mut().calls += 1);
+        let xs: Vec<Sd::Elem> = x.iter().copied().collect();
+        axis_probe_check("x", &xs, data.shape().first().copied(), MIN);
+        Ok(AxisProbeBuilt)
+    }
+}
+
+impl<Sd, Sx, D> Interp1DStrategy<Sd, Sx, D> for AxisProbeBuilt
+where
+    Sd: Data,
+    Sd::Elem: num_traits::Num + PartialOrd + num_traits::NumCast + Copy + std::fmt::Debug + std::ops::Sub<Output = Sd::Elem> + Send,
+    Sx: Data<Elem = Sd::Elem>,
+    D: Dimension + RemoveAxis,
+{
+    fn interp_into(&self, _: &Interp1D<Sd, Sx, D, Self>, _: ArrayViewMut<'_, Sd::Elem, D::Smaller>, _: Sd::Elem) -> Result<(), InterpolateError> {
+        Ok(())
+    }
+}
+
+impl<Sd, Sx, Sy, D, const MIN: usize> Interp2DStrategyBuilder<Sd, Sx, Sy, D> for AxisProbe<MIN>
+where
+    Sd: Data,
+    Sd::Elem: num_traits::Num + PartialOrd + num_traits::NumCast + Copy + std::fmt::Debug + std::ops::Sub<Output = Sd::Elem> + Send,
+    Sx: Data<Elem = Sd::Elem>,
+    Sy: Data<Elem = Sd::Elem>,
+    D: Dimension + RemoveAxis,
+    D::Smaller: RemoveAxis,
+{
+    const MINIMUM_DATA_LENGHT: usize = MIN;
+    type FinishedStrat = AxisProbeBuilt;
+    fn build(self, x: &ArrayBase<Sx, Ix1>, y: &ArrayBase<Sy, Ix1>, data: &ArrayBase<Sd, D>) -> Result<AxisProbeBuilt, BuilderError> {
+        BUILDLOG.with(|b| b.borrow_mut().calls += 1);
+        let xs: Vec<Sd::Elem> = x.iter().copied().collect();
+        let ys: Vec<Sd::Elem> = y.iter().copied().collect();
+        axis_probe_check("x", &xs, data.shape().first().copied(), MIN);
+        axis_probe_check("y", &ys, data.shape().get(1).copied(), MIN);
+        Ok(AxisProbeBuilt)
+    }
+}
+
+impl<Sd, Sx, Sy, D> Interp2DStrategy<Sd, Sx, Sy, D> for AxisProbeBuilt
+where
+    Sd: Data,
+    Sd::Elem: num_traits::Num + PartialOrd + num_traits::NumCast + Copy + std::fmt::Debug + std::ops::Sub<Output = Sd::Elem> + Send,
+    Sx: Data<Elem = Sd::Elem>,
+    Sy: Data<Elem = Sd::Elem>,
+    D: Dimension + RemoveAxis,
+    D::Smaller: RemoveAxis,
+{
+    fn interp_into(&self, _: &Interp2D<Sd, Sx, Sy, D, Self>, _: ArrayViewMut<'_, Sd::Elem, <D::Smaller as Dimension>::Smaller>, _: Sd::Elem, _: Sd::Elem) -> Result<(), InterpolateError> {
+        Ok(())
+    }
+}
+
+/// Builder cases over element types whose `usize` conversion is inexact or that are not f64:
+/// default axes and explicit axes, 1-D and 2-D. Returns (label, violation) of the first case in
+/// which the strategy's `build` was invoked with inputs that are not valid.
+pub fn element_type_build_cases() -> (u64, Option<(String, String)>) {
+    use crate::lpelem::Lp;
+    use ndarray::{Array1, Array2};
+    use ndarray_interp::interp1d::Interp1DBuilder;
+    use ndarray_interp::interp2d::Interp2DBuilder;
+    let mut n_cases = 0u64;
+    let mut run = |label: String, f: &mut dyn FnMut()| -> Option<(String, String)> {
+        let _ = take_build_log();
+        let _ = std::panic::catch_unwind(std::panic::AssertUnwindSafe(|| f()));
+        let log = take_build_log();
+        log.violations.first().map(|v| (label, v.clone()))
+    };
+    // low-precision element type: default axes beyond 257 points contain ties
+    for n in [200usize, 257, 258, 300, 513, 700] {
+        n_cases += 3;
+        let r = run(format!("Lp data, {n} points, default axis (1-D)"), &mut || {
+            let data = Array1::from_iter((0..n).map(|i| Lp((i % 7) as f64)));
+            let _ = Interp1DBuilder::new(data).strategy(AxisProbe::<2>).build();
+        });
+        if r.is_some() {
+            return (n_cases, r);
+        }
+        let r = run(format!("Lp data, {n} x 3 points, default axes (2-D, long x)"), &mut || {
+            let data = Array2::from_shape_fn((n, 3), |(i, j)| Lp(((i + j) % 5) as f64));
+            let _ = Interp2DBuilder::new(data).strategy(AxisProbe::<2>).build();
+        });
+        if r.is_some() {
+            return (n_cases, r);
+        }
+        let r = run(format!("Lp data, 3 x {n} points, default axes (2-D, long y)"), &mut || {
+            let data = Array2::from_shape_fn((3, n), |(i, j)| Lp(((i + j) % 5) as f64));
+            let _ = Interp2DBuilder::new(data).strategy(AxisProbe::<2>).build();
+        });
+        if r.is_some() {
+            return (n_cases, r);
+        }
+    }
+    // f32 and integer axes given explicitly: ties / dips next to the limits of the type
+    n_cases += 4;
+    let r = run("f32 explicit axis with two values that differ only in f64".into(), &mut || {
+        let x = Array1::from_vec(vec![0.0f32, 1.0, 16777216.0, 16777217.0f64 as f32, 2e8]);
+        let data = Array1::from_vec(vec![0.0f32; 5]);
+        let _ = Interp1DBuilder::new(data).x(x).strategy(AxisProbe::<2>).build();
+    });
+    if r.is_some() {
+        return (n_cases, r);
+    }
+    let r = run("i64 explicit axis with neighbours beyond 2^53".into(), &mut || {
+        let b = 1i64 << 53;
+        let x = Array1::from_vec(vec![0, b, b + 1, b + 1, b + 3]);
+        let data = Array1::from_vec(vec![0i64; 5]);
+        let _ = Interp1DBuilder::new(data).x(x).strategy(AxisProbe::<2>).build();
+    });
+    if r.is_some() {
+        return (n_cases, r);
+    }
+    let r = run("i64 explicit axis, strictly increasing beyond 2^53 (valid)".into(), &mut || {
+        let b = 1i64 << 53;
+        let x = Array1::from_vec(vec![0, b, b + 1, b + 2, b + 3]);
+        let data = Array1::from_vec(vec![0i64; 5]);
+        let _ = Interp1DBuilder::new(data).x(x).strategy(AxisProbe::<2>).build();
+    });
+    if r.is_some() {
+        return (n_cases, r);
+    }
+    let r = run("i32 data below the declared minimum".into(), &mut || {
+        let data = Array2::from_shape_fn((2, 4), |(i, j)| (i + j) as i32);
+        let _ = Interp1DBuilder::new(data).strategy(AxisProbe::<3>).build();
+    });
+    (n_cases, r)
+}
